@@ -391,7 +391,62 @@ def r8_reads_are_pure(ctx):
         yield o
 
 
+def r9_every_note_is_loaded(ctx):
+    """a note can only be evaluated if the loader kept it: segment_if.__init__ decided by constant propagation on a
+    segment definition with several notes - two notes of different type on the same positions (QTY has E0204 and R0204),
+    the same note twice, a note of each type: every well-formed note of the definition is in `syntax`, in order, parsed
+    into its type and positions (the parser _split_syntax is followed)."""
+    from ..absint import explore, run_function, NotClosedTest
+    fn = ctx.func('map_if', 'segment_if.__init__')
+    sp = ctx.func('map_if', 'segment_if._split_syntax')
+    g = ctx.cfg(fn)
+    notes = ('E0204', 'R0204', 'P0304', 'C0506', 'L010203', 'E0204', 'X0102')
+
+    class _Elem(object):
+        _sa_model = True
+
+        def __init__(self, attrs, notes=()):
+            self.attrs, self.notes = attrs, notes
+            self.text = attrs.get('text')
+
+        def get(self, k, d=None):
+            return self.attrs.get(k, d)
+
+        def findtext(self, k):
+            return self.attrs.get(k)
+
+        def findall(self, k):
+            return tuple(_Elem({'text': t}) for t in self.notes) if k == 'syntax' else ()
+
+    def split(text):
+        try:
+            r = run_function(ctx.cfg(sp), sp, [None, text], {})
+        except (NotClosedTest, A.NotClosed) as e:
+            raise AnalysisError('segment_if._split_syntax cannot be decided for %r: %s' % (text, e))
+        return tuple(r) if isinstance(r, (list, tuple)) else r
+    elem = _Elem({'xid': 'QTY', 'type': 's', 'name': 'Quantity', 'usage': 'S', 'pos': '100', 'max_use': '1', 'repeat': None, 'end_tag': None}, notes)
+    fin = []
+
+    def on_node(nd, env):
+        if nd is g.exit:
+            fin.append(env.get('self.syntax', 'undetermined'))
+
+    def unk(nd, env):
+        raise AnalysisError('segment_if.__init__: a test cannot be decided: %s' % norm(nd.ast))
+    funcs = {'self._split_syntax': split, 'x12_node.__init__': lambda *a_: None}
+    try:
+        explore(g, {'elem': elem, 'root': 'ROOT', 'parent': 'PARENT'}, funcs=funcs, on_node=on_node, on_unknown=unk)
+    except NotClosedTest as e:
+        raise AnalysisError('segment_if.__init__ cannot be decided: %s' % e)
+    want = tuple((t[0],) + tuple(int(t[i:i + 2]) for i in range(1, len(t), 2)) for t in notes if t[0] in 'PRCLE')
+    got = [tuple(tuple(x) if isinstance(x, (list, tuple)) else x for x in f) if isinstance(f, tuple) else f for f in fin]
+    ok = bool(got) and all(f == want for f in got)
+    yield Ob('map_if:segment_if.__init__ keeps every well-formed note of the definition', ok, ctx.floc(fn),
+             '' if ok else 'from the notes %s the segment keeps %s' % (list(notes), got[0] if got else 'nothing'))
+
+
 RULES = [
+    Rule('C14.R9', 'the loader keeps every well-formed note, parsed into type and positions (constant propagation through segment_if.__init__)', r9_every_note_is_loaded, floor=1),
     Rule('C14.R1', 'syntax notes of every indexed map are well formed (parse as _split_syntax expects)', r1_data, floor=1500),
     Rule('C14.R2', 'letter list = branch labels = PRECL; fall-through rejects; position slices tile the note', r2_letters, floor=4),
     Rule('C14.R3', 'is_syntax_valid decided per letter over all presence patterns (notes of 2-4 positions, segments of 0-6 elements) against the X12 definitions', r3_semantics, floor=5),
